@@ -250,6 +250,44 @@ def check_edits_carried(out: Outcome, copy, done) -> None:
             out.fail("setting-not-carried", f"{kind} {n!r} was set to {v!r} before pickling, the restored object has {got!r}")
 
 
+def check_approximation_step(out: Outcome, copy, done, x) -> None:
+    """Exact stream (AffineDisc only: integer coefficients, dyadic inputs and step): the Jacobian the restored
+    discipline approximates is the difference quotient *with the step that was set before pickling*, computed
+    here with fractions from the definition of the discipline - independent of the original and of GEMSEO."""
+    from fractions import Fraction as Fr
+
+    if type(copy).__name__ != "AffineDisc" or not done:
+        return
+    last = None
+    for kind, n, v in done:
+        if kind == "jac-approx":
+            last = (n.split("+")[0], v)
+        elif kind in ("fd-opt-step", "lin-mode"):
+            last = None  # (optimal steps are computed by the code; the mode alone says nothing about the step)
+    if last is None or last[0] not in ("finite_differences", "centered_differences"):
+        return
+    mode, h = last[0], Fr(last[1])
+    st, jac = _call(copy.linearize, _fresh(x), compute_all_jacobians=True)
+    if st == "exc":
+        out.fail("setting-not-carried", f"the restored discipline cannot linearize with {mode} (step {h}): {jac}")
+        return
+    xs = np.concatenate([np.asarray(x.get(k, copy.io.input_grammar.defaults[k]), dtype=float).ravel() for k in copy.in_sizes])
+    for o in copy.out_sizes:
+        col = 0
+        for i, size in copy.in_sizes.items():
+            got = np.asarray(jac[o][i])
+            for r in range(copy.out_sizes[o]):
+                for c in range(size):
+                    xj = common.F(float(xs[col + c]))
+                    q = common.F(float(copy.q[o][r]))
+                    want = common.F(float(copy.A[o][r, col + c])) + q * (2 * xj + (h if mode == "finite_differences" else 0))
+                    g = common.F(float(got[r, c])) if np.isfinite(got[r, c]) else None
+                    if not (g is not None and g == want):
+                        out.fail("setting-not-carried", f"{mode} with step {h} was set before pickling: d{o}[{r}]/d{i}[{c}] at {xs.tolist()} must be {want} (difference quotient with that step), the restored discipline returns {got[r, c]!r}")
+                        return
+            col += size
+
+
 def near_inputs(disc, done, seen_inputs) -> list[dict[str, Any]]:
     """Inputs within the cache tolerance of inputs already executed (a tolerance-based cache hit) and inputs
     that omit a name made optional (the default is used)."""
@@ -496,4 +534,6 @@ def run_discipline_case(case: dict[str, Any], tmp: Path) -> Outcome:
             out.fail("second-generation-differs", "copy of the copy differs: " + "; ".join(dd[:3]))
     except Exception as e:  # noqa: BLE001
         out.fail("second-generation-raises", f"serializing the restored object raises {type(e).__name__}: {str(e)[:200]}")
+    if post_inputs:
+        check_approximation_step(out, copy, done, post_inputs[-1])
     return out
